@@ -648,6 +648,17 @@ func c11Gen(seed int64, idx int) c11Case {
 			c.injector, c.kind = in.name, "dangling"
 		}
 	}
+	if c.kind == "valid" && idx%6 == 0 {
+		// a grouping whose nodes have no substatements, used with an augment that uses the same grouping again below
+		// one of them (a finite nest: /nest-top/shelf/shelf/shelf), next to a plain use of it
+		a := modA(ms)
+		addBody(a, yang.S("grouping", "nest-box", yang.S("container", "shelf"), yang.S("anyxml", "lid"), yang.S("choice", "side")),
+			yang.S("container", "nest-top", yang.S("uses", "nest-box",
+				yang.S("augment", "shelf", yang.S("uses", "nest-box", yang.S("augment", "shelf", yang.S("uses", "nest-box")))),
+				yang.S("augment", "side", yang.S("leaf", "left", yang.S("type", "string"))))),
+			yang.S("container", "nest-plain", yang.S("uses", "nest-box", yang.S("when", "../nest-top")), yang.S("leaf", "own", yang.S("type", "string"))))
+		yang.SortSections(a)
+	}
 	if c.kind == "valid" && idx%2 == 1 {
 		// lists whose order comes out of maps inside the compiler: five identities derived from one base,
 		// five features, four modules deviating the first module
